@@ -22,9 +22,9 @@ repo = Repo("/repo")
 ex = Exec.__new__(Exec)
 loops = {}
 for q, c in reg.contracts.items():
-    fi = repo.funcs.get(q)
+    fi = repo.funcs.get(c.target)
     if fi is not None:
-        loops[q] = len(ex._loops_in_order(fi.node))
+        loops[c.target] = len(ex._loops_in_order(fi.node))
 json.dump(loops, open("/verif/baseline/loops.json", "w"), indent=1, sort_keys=True)
 print(len(loops), "functions with loop counts")
 
